@@ -8,9 +8,18 @@ SIZE_SOURCES = ("::serialized_size", "::serialized_size_static", "::len", "::cou
                 "::storage_len", "::key_count", "::min", "::saturating_sub", "::saturating_add", "::size")
 
 
-def _const_nonzero(op):
+def const_of(b, op, depth=0):
+    """Constant value of an operand, chasing single-definition copies/casts; None if not constant."""
     k = cfg.op_const(op)
-    return bool(k and k.get("v") not in (None, 0))
+    if k is not None:
+        return k.get("v")
+    pl = cfg.op_place(op)
+    if pl is None or len(pl) != 1 or depth > 6:
+        return None
+    ds = cfg.defs(b).get(pl[0], [])
+    if len(ds) == 1 and ds[0][0] == "assign" and ds[0][2]["k"] in ("use", "cast"):
+        return const_of(b, ds[0][2]["o"], depth + 1)
+    return None
 
 
 def size_seeds(b):
@@ -28,7 +37,6 @@ def accumulators(b):
             continue
         consts = set()
         ok = bool(ds)
-        nadd = 0
         for d in ds:
             if d[0] != "assign":
                 ok = False
@@ -43,10 +51,10 @@ def accumulators(b):
                 if len(sd) == 1 and sd[0][2]["k"] == "bin" and sd[0][2]["op"].startswith("Add"):
                     a, bb_ = sd[0][2]["a"], sd[0][2]["b"]
                     oa, ob = cfg.op_origin(b, a), cfg.op_origin(b, bb_)
+
                     def is_size(o, op):
                         return bool(cfg.op_const(op)) or (o is not None and (o[0] in sizes))
                     if (oa and oa[0] == l and is_size(ob, bb_)) or (ob and ob[0] == l and is_size(oa, a)):
-                        nadd += 1
                         continue
             ok = False
             break
@@ -55,63 +63,101 @@ def accumulators(b):
     return out
 
 
+def len_guards(b):
+    """Edges of comparisons in which one side derives from a `len()` call (either polarity is a candidate)."""
+    out = []
+    lens = cfg.derived_locals(b, [tt["d"][0] for i, tt in cfg.calls(b) if (cfg.callee(tt) or "").endswith("::len")])
+    for bi, st in cfg.assigns(b):
+        r = st["r"]
+        if r["k"] == "bin" and r["op"] in ("Lt", "Le", "Gt", "Ge", "Eq", "Ne") and len(st["l"]) == 1:
+            oa, ob = cfg.op_origin(b, r["a"]), cfg.op_origin(b, r["b"])
+            if (oa and oa[0] in lens) or (ob and ob[0] in lens):
+                for sw in cfg.bool_switches(b, cfg.derived_locals(b, [st["l"][0]])):
+                    out.append(("length test", sw["true_edge"]))
+                    out.append(("length test", sw["false_edge"]))
+    return out
+
+
+def decode_guards(b):
+    out = []
+    for i, tt in cfg.calls(b):
+        n = cfg.callee_decl(tt) or ""
+        nn = cfg.callee(tt) or ""
+        if n.endswith(("Serialize::deserialize", "SerializeStatic::deserialize")) or nn.endswith("::deserialize"):
+            for te in cfg.try_edges(b, cfg.derived_locals(b, [tt["d"][0]])):
+                if te["ok_edge"]:
+                    out.append(("prior successful decode", te["ok_edge"]))
+        if nn.endswith(("::first", "::get", "::split_first", "::first_chunk")):
+            der = cfg.derived_locals(b, [tt["d"][0]])
+            for j, bl in enumerate(b.blocks):
+                t2 = bl["term"]
+                if t2["k"] == "switch":
+                    pl = cfg.op_place(t2["d"])
+                    ds = cfg.defs(b).get(pl[0], []) if pl else []
+                    if ds and ds[0][0] == "assign" and ds[0][2]["k"] == "discr" and ds[0][2]["p"][0] in der:
+                        for v, tb in t2["ts"]:
+                            if v == 1:
+                                out.append(("Some edge of %s" % nn.split("::")[-1], (j, tb)))
+    return out
+
+
+def range_parts(b, op):
+    """(kind, [operands]) of a Range/RangeFrom/RangeTo aggregate passed as operand, else None."""
+    org = cfg.op_origin(b, op)
+    if not org:
+        return None
+    for d in cfg.defs(b).get(org[0], []):
+        if d[0] == "assign" and d[2]["k"] == "agg" and d[2].get("adt", "").startswith("std::ops::Range"):
+            return d[2]["adt"].split("::")[-1], d[2]["ops"]
+    return None
+
+
+def array_len(ty):
+    if ty.startswith("&"):
+        ty = ty.lstrip("&").replace("mut ", "").strip()
+    if ty.startswith("[") and ";" in ty:
+        try:
+            return int(ty.rsplit(";", 1)[1].strip(" ]"))
+        except ValueError:
+            return None
+    return None
+
+
 def classify(fa, b, s):
     """Return a justification string if site `s` of body `b` is structurally safe, else None."""
     blk = b.blocks[s["bb"]]
     t = blk["term"]
     kind = s["kind"]
     if kind == "bounds_check":
-        li, ii = cfg.op_const(t.get("len", {})), cfg.op_const(t.get("idx", {}))
-        if ii and "v" in ii:
-            # constant index into a fixed-size array
-            pl = None
-            for st in blk["s"]:
-                pass
-            # the indexed array type: look for a local of array type with enough elements
-            if li and "v" in li and ii["v"] < li["v"]:
-                return "constant index %d < constant length %d" % (ii["v"], li["v"])
-            for l in b.locals:
-                ty = l["ty"]
-                if ty.startswith("[") and ";" in ty:
-                    try:
-                        n = int(ty.rsplit(";", 1)[1].strip(" ]"))
-                    except ValueError:
-                        continue
-                    if ii["v"] < n:
-                        return "constant index %d into fixed array %s" % (ii["v"], ty)
+        iv = const_of(b, t["idx"]) if "idx" in t else None
+        lv = const_of(b, t["len"]) if "len" in t else None
+        if iv is not None and lv is not None and iv < lv:
+            return "constant index %d < constant length %d" % (iv, lv)
+        if iv is not None:
+            g = common.guarded_by(b, s["bb"], len_guards(b) + decode_guards(b))
+            if g:
+                return "constant index %d after a %s" % (iv, g)
         return None
     if kind in ("DivisionByZero", "RemainderByZero"):
-        # divisor: the assert condition is `Eq(divisor, 0)`; find it
         c = cfg.op_place(t["c"])
         if c:
             for d in cfg.defs(b).get(c[0], []):
                 if d[0] == "assign" and d[2]["k"] == "bin" and d[2]["op"] == "Eq":
                     for o in (d[2]["a"], d[2]["b"]):
-                        if _const_nonzero(o):
-                            return "division by a non-zero constant"
-                    # divisor derived from a non-zero constant through copies
-                    for o in (d[2]["a"], d[2]["b"]):
-                        org = cfg.op_origin(b, o)
-                        if org:
-                            for dd in cfg.defs(b).get(org[0], []):
-                                if dd[0] == "assign" and dd[2]["k"] in ("use", "cast") and _const_nonzero(dd[2]["o"]):
-                                    return "division by a non-zero constant"
+                        v = const_of(b, o)
+                        if v not in (None, 0):
+                            return "division by the non-zero constant %d" % v
         return None
     if kind == "alloc":
-        # size operand: last integer operand
         args = t["a"]
         size_op = args[-1] if args else None
-        if s["callee"] in ("vec_resize",):
-            size_op = args[1] if len(args) > 1 else None
-        if s["callee"] in ("vec_reserve",):
+        if s["callee"] in ("vec_resize", "vec_reserve"):
             size_op = args[1] if len(args) > 1 else None
         if size_op is None:
             return None
-        if cfg.op_const(size_op):
+        if const_of(b, size_op) is not None:
             return "constant size"
-        seeds = [tt["d"][0] for i, tt in cfg.calls(b) if (cfg.callee(tt) or "").endswith(SIZE_SOURCES) or
-                 (cfg.callee_decl(tt) or "").endswith(SIZE_SOURCES)]
-        der = cfg.derived_locals(b, seeds)
+        der = cfg.derived_locals(b, size_seeds(b))
         org = cfg.op_origin(b, size_op)
         if org and (org[0] in der or cfg.op_place(size_op)[0] in der):
             return "size derives from an in-memory length/size"
@@ -124,108 +170,90 @@ def classify(fa, b, s):
             for d in cfg.defs(b).get(c[0], []):
                 if d[0] == "assign" and d[2]["k"] == "bin":
                     oa, ob = cfg.op_origin(b, d[2]["a"]), cfg.op_origin(b, d[2]["b"])
+
                     def small(o, op):
-                        return bool(cfg.op_const(op)) or (o is not None and (o[0] in sizes or o[0] in accs))
+                        return const_of(b, op) is not None or (o is not None and (o[0] in sizes or o[0] in accs))
                     if small(oa, d[2]["a"]) and small(ob, d[2]["b"]) and d[2]["op"].startswith(("Add", "Mul")):
                         return "arithmetic on sizes of already decoded in-memory values / constants"
         return None
     if kind == "index":
         full = cfg.callee_full(t) or ""
+        recv_ty = full.split(" as std::ops::Index")[0].lstrip("<")
         recv = cfg.op_origin(b, t["a"][0]) if t["a"] else None
-        # fixed-size array receiver with constant range
-        if "; " in full.split(" as std::ops::Index")[0]:
-            rng = cfg.op_origin(b, t["a"][1]) if len(t["a"]) > 1 else None
-            consts = []
-            if rng:
-                for d in cfg.defs(b).get(rng[0], []):
-                    if d[0] == "assign" and d[2]["k"] == "agg":
-                        consts = [cfg.op_const(o) for o in d[2]["ops"]]
-            if consts and all(c and "v" in c for c in consts):
-                return "constant range into a fixed-size array"
-        # decode buffer: RangeFrom / Range index on the input slice after a successful decode or length test
-        if recv and 1 <= recv[0] <= b.d["argc"] and "[u8]" in b.local_ty(recv[0]):
-            guards = []
-            for i, tt in cfg.calls(b):
-                n = cfg.callee_decl(tt) or ""
-                nn = cfg.callee(tt) or ""
-                if n.endswith(("Serialize::deserialize", "SerializeStatic::deserialize")) or nn.endswith("::deserialize"):
-                    a0 = cfg.op_origin(b, tt["a"][0]) if tt["a"] else None
-                    for te in cfg.try_edges(b, cfg.derived_locals(b, [tt["d"][0]])):
-                        if te["ok_edge"]:
-                            guards.append(("prior successful decode", te["ok_edge"]))
-                if nn.endswith(("::first", "::get", "::split_first", "::first_chunk")):
-                    der = cfg.derived_locals(b, [tt["d"][0]])
-                    for j, bl in enumerate(b.blocks):
-                        t2 = bl["term"]
-                        if t2["k"] == "switch":
-                            pl = cfg.op_place(t2["d"])
-                            ds = cfg.defs(b).get(pl[0], []) if pl else []
-                            if ds and ds[0][0] == "assign" and ds[0][2]["k"] == "discr" and ds[0][2]["p"][0] in der:
-                                for v, tb in t2["ts"]:
-                                    if v == 1:
-                                        guards.append(("Some edge of %s" % nn.split("::")[-1], (j, tb)))
-            for bi, st in cfg.assigns(b):
-                r = st["r"]
-                if r["k"] == "bin" and r["op"] in ("Lt", "Le", "Gt", "Ge") and len(st["l"]) == 1:
-                    lens = [x for x in (r["a"], r["b"]) if cfg.op_origin(b, x) and cfg.def_call(b, cfg.op_origin(b, x)[0]) and
-                            (cfg.callee(cfg.def_call(b, cfg.op_origin(b, x)[0])[1]) or "").endswith("::len")]
-                    if lens:
-                        for sw in cfg.bool_switches(b, cfg.derived_locals(b, [st["l"][0]])):
-                            guards.append(("length test", sw["true_edge"]))
-                            guards.append(("length test", sw["false_edge"]))
-            g = common.guarded_by(b, s["bb"], guards)
-            # the range start: constant, a size of a decoded value, or an offset accumulator of such sizes
-            rng = cfg.op_origin(b, t["a"][1]) if len(t["a"]) > 1 else None
-            start_ok = None
-            if rng:
+        rp = range_parts(b, t["a"][1]) if len(t["a"]) > 1 else None
+        n_arr = array_len(recv_ty)
+        if n_arr is not None and rp:
+            vals = [const_of(b, o) for o in rp[1]]
+            if all(v is not None and v <= n_arr for v in vals):
+                return "constant range %s into a fixed-size array of %d" % (vals, n_arr)
+        if n_arr is not None and rp is None and len(t["a"]) > 1:
+            v = const_of(b, t["a"][1])
+            if v is not None and v < n_arr:
+                return "constant index into a fixed-size array"
+        on_param_buffer = bool(recv and 1 <= recv[0] <= b.d["argc"] and "[u8]" in b.local_ty(recv[0]))
+        guards = len_guards(b) + (decode_guards(b) if on_param_buffer else [])
+        g = common.guarded_by(b, s["bb"], guards)
+        if rp:
+            vals = [const_of(b, o) for o in rp[1]]
+            if all(v is not None for v in vals):
+                if vals == [0] and rp[0] == "RangeFrom":
+                    return "slice from offset 0"
+                if g:
+                    return "constant range %s taken only after a %s" % (vals, g)
+            if on_param_buffer and rp[0] == "RangeFrom":
                 accs = accumulators(b)
                 sizes = cfg.derived_locals(b, size_seeds(b))
-                for d in cfg.defs(b).get(rng[0], []):
-                    if d[0] == "assign" and d[2]["k"] == "agg" and d[2].get("adt", "").endswith("RangeFrom"):
-                        o = d[2]["ops"][0]
-                        k = cfg.op_const(o)
-                        org = cfg.op_origin(b, o)
-                        if k and "v" in k:
-                            start_ok = ("const", k["v"])
-                        elif org and org[0] in accs:
-                            start_ok = ("acc", accs[org[0]])
-                        elif org and org[0] in sizes:
-                            start_ok = ("size", None)
-                        elif org:
-                            # through a cast (`__offset as usize`)
-                            for dd in cfg.defs(b).get(org[0], []):
-                                if dd[0] == "assign" and dd[2]["k"] == "cast":
-                                    o2 = cfg.op_origin(b, dd[2]["o"])
-                                    if o2 and o2[0] in accs:
-                                        start_ok = ("acc", accs[o2[0]])
-                                    elif o2 and o2[0] in sizes:
-                                        start_ok = ("size", None)
-            if start_ok:
-                if start_ok[0] == "const" and start_ok[1] == 0:
-                    return "slice from offset 0"
-                if start_ok[0] == "acc" and start_ok[1] == {0}:
-                    return "slice at an offset accumulator that starts at 0 and only adds sizes of decoded values"
-                if g:
-                    return "slice at a decoded-size offset, taken only after: " + g
-            elif g and rng is None:
-                return "slice of the input buffer taken only after: " + g
+                o = rp[1][0]
+                org = cfg.op_origin(b, o)
+                start = None
+                cands = [org] if org else []
+                if org:
+                    for dd in cfg.defs(b).get(org[0], []):
+                        if dd[0] == "assign" and dd[2]["k"] == "cast":
+                            o2 = cfg.op_origin(b, dd[2]["o"])
+                            if o2:
+                                cands.append(o2)
+                for c_ in cands:
+                    if c_[0] in accs:
+                        start = ("acc", accs[c_[0]])
+                    elif c_[0] in sizes:
+                        start = ("size", None)
+                if start:
+                    if start[0] == "acc" and start[1] == {0}:
+                        return "slice at an offset accumulator that starts at 0 and only adds sizes of decoded values"
+                    if g:
+                        return "slice at a decoded-size offset, taken only after a " + g
+        else:
+            # integer index: guarded by a comparison of that very index against a len()
+            idx = cfg.op_origin(b, t["a"][1]) if len(t["a"]) > 1 else None
+            if idx:
+                lens = cfg.derived_locals(b, [tt["d"][0] for i, tt in cfg.calls(b) if (cfg.callee(tt) or "").endswith("::len")])
+                for bi, st in cfg.assigns(b):
+                    r = st["r"]
+                    if r["k"] == "bin" and r["op"] in ("Lt", "Le", "Gt", "Ge") and len(st["l"]) == 1:
+                        oa, ob = cfg.op_origin(b, r["a"]), cfg.op_origin(b, r["b"])
+                        if oa and ob and ((oa[0] == idx[0] and ob[0] in lens) or (ob[0] == idx[0] and oa[0] in lens)):
+                            for sw in cfg.bool_switches(b, cfg.derived_locals(b, [st["l"][0]])):
+                                for e in (sw["true_edge"], sw["false_edge"]):
+                                    if cfg.find_path(b, [0], [s["bb"]], removed_edges=[e]) is None:
+                                        return "index compared against len() of the collection before use"
         return None
     return None
 
 
 def run_panic_rule(ctx, rule, roots, justified, overflow_fns=(), crates=("agdb",), floor=10):
-    """justified: dict key (function|kind|callee) -> reason."""
+    """justified: dict key (function|kind|callee) -> reason | (reason, requirement(fa, body, site) -> bool)."""
     fa = ctx.facts
     cg = CallGraph(fa)
     seen = cg.closure([r for r in roots if r is not None])
     n_sites = 0
     n_auto = 0
-    counted = {}
+    used = set()
     for p, (b, parent, bb) in sorted(seen.items()):
         if b.crate not in crates or "test_utilities" in b.path:
             continue
         fn = common.norm(b.root or b.npath)
-        ov = any(fn.endswith(x) or x in fn for x in overflow_fns)
+        ov = any(fn.endswith(x) for x in overflow_fns)
         for s in panics.sites(b, overflow=ov):
             n_sites += 1
             key = "%s|%s|%s" % (fn, s["kind"], s["callee"])
@@ -235,7 +263,12 @@ def run_panic_rule(ctx, rule, roots, justified, overflow_fns=(), crates=("agdb",
                 ctx.ob(rule, key + "@auto", True, why, b.loc(s["bb"]), key="%s|%s|%s" % (ctx.pid, rule, key))
                 continue
             if key in justified:
-                ctx.ob(rule, key, True, "justified (frozen): " + justified[key], b.loc(s["bb"]),
+                j = justified[key]
+                used.add(key)
+                reason, req = (j, None) if isinstance(j, str) else j
+                okj = True if req is None else bool(req(fa, b, s))
+                ctx.ob(rule, key, okj, ("justified (frozen): " + reason) if okj else
+                       "the frozen justification of `%s` (%s) no longer holds structurally" % (key, reason), b.loc(s["bb"]),
                        key="%s|%s|%s" % (ctx.pid, rule, key))
                 continue
             chain = cg.chain(seen, p)
@@ -244,5 +277,50 @@ def run_panic_rule(ctx, rule, roots, justified, overflow_fns=(), crates=("agdb",
                    "safe nor in the justified table" % (s["kind"], s["callee"], fn, " -> ".join(x.split("::")[-1] for x in chain[-4:])),
                    b.loc(s["bb"]), key="%s|%s|%s" % (ctx.pid, rule, key))
     ctx.floor(rule, "panic-capable sites enumerated in the closure (%d bodies)" % len(seen), n_sites, floor)
-    ctx.note("%s: %d bodies in the closure, %d sites, %d discharged structurally" % (rule, len(seen), n_sites, n_auto))
-    return seen
+    ctx.note("%s: %d bodies in the closure, %d sites, %d discharged structurally, %d by the frozen table" % (
+        rule, len(seen), n_sites, n_auto, len(used)))
+    return seen, cg
+
+
+def recursion_rule(ctx, rule, seen, cg, depth_guards=()):
+    """Unbounded recursion through the decoders: every call-graph cycle reachable from the entry set must contain a
+    depth guard (a call to one of `depth_guards`)."""
+    nodes = {p: b for p, (b, _, _) in seen.items() if b.crate == "agdb"}
+    adj = {p: [tb.path for _, tb in cg.edges(b) if tb.path in nodes] for p, b in nodes.items()}
+    index, low, on, st, comps, cnt = {}, {}, set(), [], [], [0]
+    import sys
+    sys.setrecursionlimit(10000)
+
+    def strong(v):
+        index[v] = low[v] = cnt[0]
+        cnt[0] += 1
+        st.append(v)
+        on.add(v)
+        for w in adj[v]:
+            if w not in index:
+                strong(w)
+                low[v] = min(low[v], low[w])
+            elif w in on:
+                low[v] = min(low[v], index[w])
+        if low[v] == index[v]:
+            comp = []
+            while True:
+                w = st.pop()
+                on.discard(w)
+                comp.append(w)
+                if w == v:
+                    break
+            if len(comp) > 1 or v in adj[v]:
+                comps.append(comp)
+    for v in list(nodes):
+        if v not in index:
+            strong(v)
+    for comp in comps:
+        names = sorted(common.norm(nodes[p].root or nodes[p].npath) for p in comp)
+        guarded = any(common.norm(cfg.callee(t) or "") in depth_guards for p in comp for i, t in cfg.calls(nodes[p]))
+        ctx.ob(rule, "cycle:" + names[0], guarded,
+               "recursion bounded by a depth guard" if guarded else
+               "decoders recurse without a depth bound through %s: deeply nested input overflows the stack" % " <-> ".join(
+                   n.split(" as ")[0].lstrip("<").split("::")[-1] for n in names[:5]),
+               nodes[comp[0]].where, key="%s|%s|cycle|%s" % (ctx.pid, rule, names[0]))
+    return comps
